@@ -14,7 +14,16 @@ const faults = "join-rebalance,join-unknown-member,join-drop,sync-rebalance,sync
 func Scenarios(prop string) []gx.Sc {
 	ca := ""
 	if prop == "C12" {
+		// close at every point; the error-reporting window of the group is a decision point too
 		ca = "&closeany=1"
+		g := gates + ",cg.err.mid"
+		f := faults + ",fetch-unknown-error,fetch-drop"
+		return []gx.Sc{
+			{Name: "cg?m=1&np=1&n=2&mode=all&ns=1&gates=" + g + "&faults=" + f + ca, Q: 2, T: 3},
+			{Name: "cg?m=1&np=1&n=2&mode=k1&ns=2&init=valid&gates=" + g + "&faults=" + f + ca, Q: 2, T: 3},
+			{Name: "cg?m=2&np=1&n=2&mode=all&ns=1&gates=" + g + "&faults=" + f + ca, Q: 1, T: 2},
+			{Name: "cg?m=1&np=1&n=2&mode=all&ns=1&cleanerr=1&gates=" + g + "&faults=" + f + ca, Q: 2, T: 3},
+		}
 	}
 	return []gx.Sc{
 		{Name: "cg?m=1&np=1&n=2&mode=all&ns=2&gates=" + gates + "&faults=" + faults + ca, Q: 2, T: 3},
